@@ -80,7 +80,12 @@ def _ob(nmax):
             h.assume(us[0].t_supply > us[1].t_supply)            # collections iterate hottest first
         last = us[0] if hot_side else us[-1]
         far = 0 if hot_side else n - 1
-        h.assume(bool(h.eq(last.t_supply, T[far])) if True else True)   # the highest-grade utility is anchored at the end of the range (like the default)
+        # the highest-grade utility is anchored at the end of the range (like the default utility) -- or not: a ladder that cannot reach
+        # the end leaves the side unbalanced, but what it is given must still be feasible (FEASIBLE does not presuppose closure)
+        if h.choice("highest_grade_anchored_at_the_end", [True, False]):
+            h.assume(h.eq(last.t_supply, T[far]))
+        else:
+            h.assume(Not(h.eq(last.t_supply, T[far])))
         mk = npx.array if h.symbolic else (lambda x: __import__("numpy").array(x, dtype=float))
         prof = mk(list(Hs)) if hot_side else mk([-x for x in Hs])
         ut._target_utility(us, mk(list(T)), prof, p if hot_side else 0, p if not hot_side else n - 1)
